@@ -117,9 +117,9 @@ def r3(run, db):
         c = cs[0]
         run.check(not sb.in_cycle(c.site), "%s|pre_start-not-in-cycle" % rt, "the pre_start race is not in a CFG cycle (no retry)", "the pre_start race is inside a cycle: pre_start can run twice", c.where())
         # status gate, possibly in an enclosing body
-        gate = dominated_in_chain(db, sb, c.site, lambda f, s: status_gate_dominates(f, s, "!=", "Unstarted") is not None)
-        run.check(gate, "%s|status-gate" % rt, "pre_start is dominated by the false edge of `get_status() != Unstarted` (second start rejected)",
-                  "pre_start is not behind the `status != Unstarted` gate", c.where())
+        gate = dominated_in_chain(db, sb, c.site, lambda f, s: (lambda g: bool(g) and admitted_statuses(g) == ["Unstarted"])(status_gates_at(f, s)))
+        run.check(gate, "%s|status-gate" % rt, "pre_start is reachable only while a fresh status read says Unstarted (second start rejected)",
+                  "pre_start is not behind a status gate that admits only Unstarted", c.where())
         # the gate's true edge returns Err(ActorAlreadyStarted) without reaching pre_start: implied by dominance of the false edge
         aw = await_of_call(sb, c)
         run.anchor("%s await of the pre_start race" % rt, len(aw), 1)
